@@ -95,8 +95,8 @@ Ret == /\ IsEvent("ret")
 
 Obs == /\ IsEvent("obs")
        /\ Quiet
-       /\ \A e \in DOMAIN Ev.calls  : e \in CbEntries /\ calls[e] = Ev.calls[e]
-       /\ \A e \in DOMAIN Ev.tokens : e \in ChEntries /\ token[e] = Ev.tokens[e]
+       /\ Has(Ev, "calls")  => \A e \in DOMAIN Ev.calls  : e \in CbEntries /\ calls[e] = Ev.calls[e]
+       /\ Has(Ev, "tokens") => \A e \in DOMAIN Ev.tokens : e \in ChEntries /\ token[e] = Ev.tokens[e]
        /\ UNCHANGED <<reg, token, calls, pend, owed, unregd>>
 
 TNext == \/ Reset \/ Call \/ Ret \/ Cb \/ Obs
